@@ -113,8 +113,12 @@ pub fn run(rep: &mut Report, tier: &str, seed: u64) {
         // pre-populate
         let n0 = r.range(2, 5);
         let refs: Vec<_> = (0..n0).map(|_| graph.add_graph_node()).collect();
+        // endpoints of edges that exist (or were addressed) so far: later calls prefer them
+        let mut known_edges: Vec<(usize, usize)> = Vec::new();
         for _ in 0..r.below(5) {
-            let (a, b) = (refs[r.below(n0)], refs[r.below(n0)]);
+            let (ia, ib) = (r.below(n0), r.below(n0));
+            known_edges.push((ia, ib));
+            let (a, b) = (refs[ia], refs[ib]);
             let e = match graph[a].add_edge(b) { Ok(e) | Err(e) => e };
             if r.chance(1, 2) {
                 let _ = e.attributes.add(Identifier::from(*r.pick(&["k", "w", "pre"])), Value::Integer(r.below(3) as u32));
@@ -138,7 +142,9 @@ pub fn run(rep: &mut Report, tier: &str, seed: u64) {
             };
             let mi = model_input(&file, &source.tree, &source.src, &info);
             let n = graph.node_count();
-            let (ga, gb) = (r.below(n), r.below(n));
+            let (ga, gb) = if !known_edges.is_empty() && r.chance(2, 3) { *r.pick(&known_edges) } else { (r.below(n), r.below(n)) };
+            known_edges.push((ga, gb));
+            known_edges.push((gb, ga));
             let lazy = r.chance(1, 2);
             let cfg = RunCfg { lazy, globals: vec![("ga".into(), gnode_ref(ga)), ("gb".into(), gnode_ref(gb))], outer_globals: vec![], debug: None, cancel_at: None };
             let before = graph_sexp(&graph, Some(&info));
